@@ -386,6 +386,11 @@ def run_history(scn):
             if cmd == "damage":
                 damage_archive(os.path.join(root, st["archive"]), st["how"], st.get("arg"))
                 continue
+            if cmd == "retype":
+                # the project's sources change between invocations: a task that used to be an experiment (and has recorded
+                # versions) is now declared with another task type
+                P.write_project(root, {"config": scn["project"].get("config", ""), "tasks": retyped_tasks(scn, upto=st)})
+                continue
             if cmd == "copyproject":
                 # second project (for restore round trips): same sources, empty cond-out
                 dst = os.path.join(d, st["name"])
@@ -456,12 +461,26 @@ def run_history(scn):
         shutil.rmtree(d, ignore_errors=True)
 
 
+def retyped_tasks(scn, upto=None):
+    """The task list after the `retype` steps of the scenario (all of them, or those up to and including `upto`)."""
+    tasks = json.loads(json.dumps(scn["project"]["tasks"]))
+    for st in scn["steps"]:
+        if st.get("cmd") == "retype":
+            for t in tasks:
+                if "//%s:%s" % (t.get("pkg", ""), t["name"]) == st["task"]:
+                    t["kind"] = st["kind"]
+        if st is upto:
+            break
+    return tasks
+
+
 def to_store_trace(hid, scn, hist):
-    """Raw history -> StoreObs trace (numbers only)."""
+    """Raw history -> StoreObs trace (numbers only).  The task graph is the one of the sources as they are at the END of the
+    history (retype steps are only placed after the last run and before the archive steps that consult the graph)."""
     I = Interner()
-    tasks = scn["project"]["tasks"]
+    tasks = retyped_tasks(scn)
     has_args = {"//%s:%s" % (t.get("pkg", ""), t["name"]): (bool(t.get("args")), bool(t.get("options")))
-                for t in tasks if t["kind"] == "run_experiment"}
+                for t in scn["project"]["tasks"] if t["kind"] == "run_experiment"}
     idents = ["//%s:%s" % (t.get("pkg", ""), t["name"]) for t in tasks]
     from .runobs import resolve_dep, KIND
     num = {i: k + 1 for k, i in enumerate(idents)}
